@@ -197,6 +197,13 @@ func (g *groupsGen) stmts(depth int, prefix string, n int) []*Sx {
 			path = "/"
 			slashed = true
 		}
+		if strings.HasSuffix(prefix, "/") && rng.Intn(3) != 0 {
+			// inside a group whose path ends in a slash: relative spellings, and the group's own path ("")
+			path = strings.TrimPrefix(path, "/")
+			if rng.Intn(3) == 0 {
+				path, slashed = "", true
+			}
+		}
 		full := prefix + path
 		if slashed { // ... and the same path without it must not be served
 			g.probes = append(g.probes, T("probe", X("GET"), X(instantiate(strings.TrimSuffix(full, "/")))))
@@ -225,6 +232,9 @@ func (g *groupsGen) stmts(depth int, prefix string, n int) []*Sx {
 			g.probe([]string{"GET", "TRACE", "HEAD"}, prefix, full)
 		case r < 15 && depth < 3:
 			gp := []string{fmt.Sprintf("/g%d", g.nextR), "", fmt.Sprintf("/{gid%d}", g.nextR), fmt.Sprintf("/g%d/x", g.nextR)}[rng.Intn(4)]
+			if rng.Intn(10) == 0 {
+				gp = fmt.Sprintf("/g%d/", g.nextR) // the slash belongs to the path: "/g/" + "/r" has an empty inner segment (refused)
+			}
 			ghs := g.hs(2)
 			body := g.stmts(depth+1, prefix+gp, 1+rng.Intn(3))
 			out = append(out, T("group", X(gp), ghs, T("body", body...)))
